@@ -2,6 +2,7 @@
   C04 — targets are only placed where they fit under the series limits.
   Property theorems (kept apart from the helper lemmas in Kvass/Proofs).
 -/
+import Kvass.Pins.Coord
 import Kvass.Proofs.CoordLog
 
 namespace Kvass.Props.C04
